@@ -1,4 +1,8 @@
 // Further command groups are included and registered here.
+#include "core/directives_include.h"
+#include "cmd_prog.h"
+
 static void register_all()
 {
+  register_prog();
 }
